@@ -400,9 +400,10 @@ func genHostile(rng *common.RNG) *hostileCase {
 		h.limit = hostileLimits[rng.Intn(len(hostileLimits))]
 	}
 	strat := rng.Intn(8)
-	if (strat == 2 || strat == 3) && h.limit == 0 && rng.Chance(2, 3) {
-		// a frame that lands on the 64 MiB default makes Decode clear 64 MiB:
-		// keep that boundary case, but rarer (it dominates the run time)
+	if (strat == 2 || strat == 3) && h.limit == 0 && rng.Chance(23, 24) {
+		// a frame that lands on the 64 MiB default makes Decode clear 64 MiB
+		// (0.5-3 s of page faults in this VM): keep that boundary case, but
+		// rare -- about one case in 650 (it used to dominate the run time)
 		h.limit = 1 << 20
 	}
 	eff := h.limit
